@@ -73,15 +73,21 @@ type sbRandom struct {
 	Traced  int `json:"traced"` // number of walks recorded for TLC (the first ones)
 }
 
+// one complete TLC transition graph with the walks that cover it
+type sbGraph struct {
+	Name   string   `json:"name"`
+	Accts  []string `json:"accts"`
+	Ctrs   []string `json:"ctrs"`
+	Keys   []string `json:"keys"`
+	States []sbObs  `json:"states"`
+	Acts   []sbAct  `json:"acts"`
+	Edges  [][3]int `json:"edges"` // src state, act, dst state
+	Init   int      `json:"init"`
+	Walks  [][]int  `json:"walks"` // edge indices, chained from Init
+}
+
 type sbInput struct {
-	Accts  []string  `json:"accts"`
-	Ctrs   []string  `json:"ctrs"`
-	Keys   []string  `json:"keys"`
-	States []sbObs   `json:"states"`
-	Acts   []sbAct   `json:"acts"`
-	Edges  [][3]int  `json:"edges"` // src state, act, dst state
-	Init   int       `json:"init"`
-	Walks  [][]int   `json:"walks"` // edge indices, chained from Init
+	Graphs []sbGraph `json:"graphs"`
 	Salts  int       `json:"salts"` // concretisations per walk
 	Random sbRandom  `json:"random"`
 }
@@ -798,82 +804,89 @@ func TestVerifStateBuffer(t *testing.T) {
 			t.Fatal(err)
 		}
 	}()
-	nvals := 2
-	for _, a := range in.Acts {
-		if n := int(sbNonce(a.V)); n > nvals {
-			nvals = n
-		}
+	salts := in.Salts
+	if salts < 1 {
+		salts = 1
 	}
-
 	var wg sync.WaitGroup
 	sem := make(chan struct{}, runtime.NumCPU())
 
-	// ---- part A: edge-cover walks through the TLC graph
-	runWalk := func(wi int, walk []int, salt string) {
-		conc := sbConc{salt: salt}
-		var acts []sbAct
-		step := -1
-		var cur *sbAct
-		defer func() {
-			if p := recover(); p != nil {
-				name := "init"
-				if cur != nil {
-					name = sbActKey(cur)
+	// ---- part A: edge-cover walks through the TLC graphs
+	for gi := range in.Graphs {
+		in := &in.Graphs[gi]
+		gname := in.Name
+		nvals := 2
+		for _, a := range in.Acts {
+			if n := int(sbNonce(a.V)); n > nvals {
+				nvals = n
+			}
+		}
+		runWalk := func(wi int, walk []int, salt string) {
+			conc := sbConc{salt: salt}
+			var acts []sbAct
+			step := -1
+			var cur *sbAct
+			defer func() {
+				if p := recover(); p != nil {
+					name := "init"
+					if cur != nil {
+						name = sbActKey(cur)
+					}
+					res.Violate(map[string]interface{}{"kind": "panic", "act": name},
+						sbReplay{Part: gname, Salt: salt, Walk: wi, Step: step, Acts: acts},
+						"panic in the real code at step %d (%s) of walk %d of graph %s: %v", step, name, wi, gname, p)
 				}
-				res.Violate(map[string]interface{}{"kind": "panic", "act": name},
-					sbReplay{Part: "graph", Salt: salt, Walk: wi, Step: step, Acts: acts},
-					"panic in the real code at step %d (%s) of graph walk %d: %v", step, name, wi, p)
-			}
-		}()
-		w := newSbWorld(conc)
-		init := &in.States[in.Init]
-		if err := w.build(init); err != nil {
-			res.Violate(map[string]interface{}{"kind": "error", "act": "init"}, sbReplay{Part: "graph", Salt: salt, Walk: wi}, "building the initial state: %v", err)
-			return
-		}
-		if kind, text := w.check(&sbAct{Name: "Reopen"}, init, in.Accts, in.Ctrs, in.Keys, nvals, nil); kind != "" {
-			res.Violate(map[string]interface{}{"kind": kind, "act": "init"}, sbReplay{Part: "graph", Salt: salt, Walk: wi}, "initial state: %s", text)
-			return
-		}
-		for si, ei := range walk {
-			e := in.Edges[ei]
-			act := in.Acts[e[1]]
-			cur, step = &act, si
-			acts = append(acts, act)
-			res.Count(fmt.Sprintf("edge:%d", ei))
-			if err := w.apply(&act); err != nil {
-				res.Violate(map[string]interface{}{"kind": "error", "act": sbActKey(&act)}, sbReplay{Part: "graph", Salt: salt, Walk: wi, Step: si, Acts: acts},
-					"graph walk %d step %d: %+v returned %v", wi, si, act, err)
-				return
-			}
-			want := &in.States[e[2]]
-			w.syncHandles(want.Live)
-			if kind, text := w.check(&act, want, in.Accts, in.Ctrs, in.Keys, nvals, nil); kind != "" {
-				res.Violate(map[string]interface{}{"kind": kind, "act": sbActKey(&act)}, sbReplay{Part: "graph", Salt: salt, Walk: wi, Step: si, Acts: acts},
-					"graph walk %d step %d, after %+v: %s", wi, si, act, text)
-				return
-			}
-		}
-	}
-	for wi, walk := range in.Walks {
-		for s := 0; s < in.Salts; s++ {
-			wi, walk, salt := wi, walk, fmt.Sprintf("s%d-%d", verifkit.Seed(), (wi+s*7919)%97)
-			if wi == 0 && s == 0 {
-				var acts []sbAct
-				for _, ei := range walk {
-					acts = append(acts, in.Acts[in.Edges[ei][1]])
-				}
-				res.Sample(map[string]interface{}{"part": "graph", "salt": salt, "acts": acts})
-			}
-			wg.Add(1)
-			sem <- struct{}{}
-			go func() {
-				defer func() { <-sem; wg.Done() }()
-				runWalk(wi, walk, salt)
 			}()
+			w := newSbWorld(conc)
+			init := &in.States[in.Init]
+			if err := w.build(init); err != nil {
+				res.Violate(map[string]interface{}{"kind": "error", "act": "init"}, sbReplay{Part: gname, Salt: salt, Walk: wi}, "building the initial state: %v", err)
+				return
+			}
+			if kind, text := w.check(&sbAct{Name: "Reopen"}, init, in.Accts, in.Ctrs, in.Keys, nvals, nil); kind != "" {
+				res.Violate(map[string]interface{}{"kind": kind, "act": "init"}, sbReplay{Part: gname, Salt: salt, Walk: wi}, "initial state: %s", text)
+				return
+			}
+			for si, ei := range walk {
+				e := in.Edges[ei]
+				act := in.Acts[e[1]]
+				cur, step = &act, si
+				acts = append(acts, act)
+				res.Count(fmt.Sprintf("edge:%s:%d", gname, ei))
+				if err := w.apply(&act); err != nil {
+					res.Violate(map[string]interface{}{"kind": "error", "act": sbActKey(&act)}, sbReplay{Part: gname, Salt: salt, Walk: wi, Step: si, Acts: acts},
+						"graph %s walk %d step %d: %+v returned %v", gname, wi, si, act, err)
+					return
+				}
+				want := &in.States[e[2]]
+				w.syncHandles(want.Live)
+				if kind, text := w.check(&act, want, in.Accts, in.Ctrs, in.Keys, nvals, nil); kind != "" {
+					res.Violate(map[string]interface{}{"kind": kind, "act": sbActKey(&act)}, sbReplay{Part: gname, Salt: salt, Walk: wi, Step: si, Acts: acts},
+						"graph %s walk %d step %d, after %+v: %s", gname, wi, si, act, text)
+					return
+				}
+			}
 		}
+		for wi, walk := range in.Walks {
+			for s := 0; s < salts; s++ {
+				wi, walk, salt := wi, walk, fmt.Sprintf("s%d-%d", verifkit.Seed(), (wi+s*7919)%97)
+				if wi == 0 && s == 0 {
+					var acts []sbAct
+					for _, ei := range walk {
+						acts = append(acts, in.Acts[in.Edges[ei][1]])
+					}
+					res.Sample(map[string]interface{}{"part": gname, "salt": salt, "acts": acts})
+				}
+				wg.Add(1)
+				sem <- struct{}{}
+				go func() {
+					defer func() { <-sem; wg.Done() }()
+					runWalk(wi, walk, salt)
+				}()
+			}
+		}
+		wg.Wait()
 	}
-	wg.Wait()
 
 	// ---- part B: seeded random driver, checked against the Go reference, recorded for TLC
 	rc := in.Random
